@@ -527,6 +527,21 @@ def explore_c06(rng, tier, res, deep=False):
         for nf2 in nothing_forms:
             for op in OPS if tier == "thorough" else rng.sample(OPS, 2):
                 cases.append((f"$.rows[?{nf1} {op} {nf2}]", {"rows": [{"a": [], "b": 1, "c": 2, "str": "abc", "num": 5}], "x": {}, "str": "abc", "t": True}))
+    # Nothing that comes out of a FUNCTION (length() of a number / boolean / null / missing member / Nothing result of
+    # another call) against the values a duck-typed implementation would produce instead (0, 0.0, false, "", [], null),
+    # every operator, both sides, literal and queried comparand: Nothing equals only Nothing and is never ordered
+    fn_nothing = ["length(@.missing)", "length(@.num)", "length(@.t)", "length(@.nul)", "length(value(@.*))", "length(value(@.missing))",
+                  "length(vf(@.missing))", "vf(length(@.missing))", "length($.missing)", "value(@.emp[*])", "length(@.emp[0])"]
+    zeros = [("0", 0), ("0.0", 0.0), ("-0.0", -0.0), ("1", 1), ("-1", -1), ("false", False), ("null", None), ("''", ""), ("true", True)]
+    fdoc = {"rows": [{"num": 5, "t": True, "nul": None, "emp": [], "z": 0, "a": 1, "b": 2}, {"num": 0, "t": False, "nul": None, "emp": [], "z": 0.0}], "x": 0}
+    for fnf in fn_nothing:
+        for op in OPS:
+            for lit, _v in zeros:
+                cases.append((f"$.rows[?{fnf} {op} {lit}]", fdoc))
+                cases.append((f"$.rows[?{lit} {op} {fnf}]", fdoc))
+            for other in ("@.z", "$.x", "@.emp", "@.missing", "length(@.emp)", "count(@.missing)", "value(@.z)"):
+                cases.append((f"$.rows[?{fnf} {op} {other}]", fdoc))
+                cases.append((f"$.rows[?{other} {op} {fnf}]", fdoc))
     # near-miss pairs: a random value against a copy that differs by ONE small edit (a renamed member, a leaf of
     # another kind with a "similar" value, a reordered object, an equal int/float, a dropped element, null vs missing)
     npairs = 4000 if tier == "thorough" else (900 if deep else 350)
